@@ -1367,7 +1367,7 @@ func TestVerifC09(t *testing.T) {
 			continue
 		}
 		dir := filepath.Join(base, fmt.Sprintf("u%d", i))
-		c09PushCase(t, out, rng, dir, fmt.Sprintf("seed=%d kind=push idx=%d", seed, i))
+		c09PushCase(t, out, rng, dir, fmt.Sprintf("seed=%d kind=push idx=%d", seed, i), i)
 		os.RemoveAll(dir)
 		out.Count("cases")
 		out.Count("push_cases")
@@ -1376,14 +1376,55 @@ func TestVerifC09(t *testing.T) {
 
 // ---------------------------------------------------------------- Push (new client)
 
+// c09Statuses is the answer alphabet of every request kind: 1xx the client surfaces, every flavour
+// of 2xx, redirects net/http follows (301/302/303/307/308, depending on method and body) and 3xx
+// it does not (300/304/305/399), 4xx, 5xx; each with or without a Location header.
+var c09Statuses = []int{100, 101, 199, 200, 201, 202, 204, 206, 300, 301, 302, 303, 304, 305, 307, 308, 399, 400, 401, 404, 409, 500, 503}
+
+type c09Resp1 struct {
+	status int
+	loc    bool
+}
+
+type c09PushEvent struct {
+	layer  int // -1: manifest exchange
+	upload bool
+	method string
+	status int
+	loc    bool
+}
+
+func (e c09PushEvent) String() string {
+	if e.layer < 0 {
+		return fmt.Sprintf("M:%s:%d", e.method, e.status)
+	}
+	ph := "p"
+	if e.upload {
+		ph = "u"
+	}
+	return fmt.Sprintf("L%d%s:%s:%d", e.layer, ph, e.method, e.status)
+}
+
 type c09PushReg struct {
-	mu       sync.Mutex
-	outcomes map[blob.Digest]string
-	index    map[blob.Digest]int
-	manOK    bool
-	log      []string
-	sched    []int
-	unknown  []string
+	mu      sync.Mutex
+	index   map[blob.Digest]int
+	post    [][]c09Resp1
+	put     [][]c09Resp1
+	man     []c09Resp1
+	pi, ui  []int
+	mi      int
+	events  []c09PushEvent
+	sched   []int
+	unknown []string
+}
+
+func c09Next(script []c09Resp1, i *int) c09Resp1 {
+	r := c09Resp1{200, false}
+	if *i < len(script) {
+		r = script[*i]
+	}
+	*i++
+	return r
 }
 
 func (r *c09PushReg) RoundTrip(req *http.Request) (*http.Response, error) {
@@ -1394,58 +1435,108 @@ func (r *c09PushReg) RoundTrip(req *http.Request) (*http.Response, error) {
 	r.mu.Lock()
 	defer r.mu.Unlock()
 	path := req.URL.Path
+	layer, upload, hop := -2, false, 0
 	switch {
-	case req.Method == "POST" && strings.HasSuffix(path, "/blobs/uploads/"):
+	case strings.HasSuffix(path, "/blobs/uploads/"):
 		d, _ := blob.ParseDigest(req.URL.Query().Get("digest"))
-		i, ok := r.index[d]
-		if !ok {
-			r.unknown = append(r.unknown, "POST for unknown digest")
-			return c09Resp(req, 400, c09Str(c09ErrBody(400)), nil), nil
+		if i, ok := r.index[d]; ok {
+			layer = i
 		}
-		r.sched = append(r.sched, i)
-		switch r.outcomes[d] {
-		case "postErr":
-			r.log = append(r.log, fmt.Sprintf("P%d-", i))
-			return c09Resp(req, 500, c09Str(c09ErrBody(500)), nil), nil
-		case "cached":
-			r.log = append(r.log, fmt.Sprintf("P%d+", i))
-			return c09Resp(req, 200, c09Str(""), nil), nil
-		}
-		r.log = append(r.log, fmt.Sprintf("P%d+", i))
-		return c09Resp(req, 202, c09Str(""), map[string]string{"Location": fmt.Sprintf("http://upload.example.com/up/%d", i)}), nil
-	case req.Method == "PUT" && strings.HasPrefix(path, "/up/"):
-		i, _ := strconv.Atoi(strings.TrimPrefix(path, "/up/"))
-		r.sched = append(r.sched, i)
-		for d, j := range r.index {
-			if j == i {
-				if r.outcomes[d] == "putOk" {
-					r.log = append(r.log, fmt.Sprintf("U%d+", i))
-					return c09Resp(req, 201, c09Str(""), nil), nil
-				}
-				r.log = append(r.log, fmt.Sprintf("U%d-", i))
-				return c09Resp(req, 500, c09Str(c09ErrBody(500)), nil), nil
-			}
-		}
-	case req.Method == "PUT" && strings.Contains(path, "/manifests/"):
-		r.log = append(r.log, "M")
-		if r.manOK {
-			return c09Resp(req, 200, c09Str(""), nil), nil
-		}
-		return c09Resp(req, 500, c09Str(c09ErrBody(500)), nil), nil
+	case strings.HasPrefix(path, "/hop/p/"):
+		fmt.Sscanf(path, "/hop/p/%d/%d", &layer, &hop)
+	case strings.HasPrefix(path, "/up/"):
+		fmt.Sscanf(path, "/up/%d", &layer)
+		upload = true
+	case strings.HasPrefix(path, "/hop/u/"):
+		fmt.Sscanf(path, "/hop/u/%d/%d", &layer, &hop)
+		upload = true
+	case strings.Contains(path, "/manifests/") || strings.HasPrefix(path, "/hop/m/"):
+		layer = -1
 	}
-	r.unknown = append(r.unknown, req.Method+" "+req.URL.String())
-	return c09Resp(req, 400, c09Str(c09ErrBody(400)), nil), nil
+	if layer == -2 || layer >= len(r.post) {
+		r.unknown = append(r.unknown, req.Method+" "+req.URL.String())
+		return c09Resp(req, 400, c09Str(c09ErrBody(400)), nil), nil
+	}
+	var a c09Resp1
+	var next string
+	switch {
+	case layer == -1:
+		a = c09Next(r.man, &r.mi)
+		next = fmt.Sprintf("http://example.com/hop/m/%d", r.mi)
+	case upload:
+		a = c09Next(r.put[layer], &r.ui[layer])
+		next = fmt.Sprintf("http://upload.example.com/hop/u/%d/%d", layer, r.ui[layer])
+	default:
+		a = c09Next(r.post[layer], &r.pi[layer])
+		next = fmt.Sprintf("http://example.com/hop/p/%d/%d", layer, r.pi[layer])
+		if a.status/100 == 2 {
+			next = fmt.Sprintf("http://upload.example.com/up/%d", layer) // the upload URL
+		}
+	}
+	r.events = append(r.events, c09PushEvent{layer, upload, req.Method, a.status, a.loc})
+	if layer >= 0 {
+		r.sched = append(r.sched, layer)
+	}
+	hdr := map[string]string{}
+	if a.loc {
+		hdr["Location"] = next
+	}
+	body := ""
+	if a.status >= 400 {
+		body = c09ErrBody(a.status)
+	}
+	return c09Resp(req, a.status, c09Str(body), hdr), nil
 }
 
-func c09PushCase(t *testing.T, out *zzverif.Out, rng *zzverif.Rng, dir, tag string) {
+func c09GenResp(rng *zzverif.Rng) c09Resp1 {
+	st := zzverif.Pick(rng, c09Statuses)
+	loc := rng.Bool()
+	if st/100 == 3 {
+		loc = rng.Chance(3, 4)
+	}
+	return c09Resp1{st, loc}
+}
+
+// c09GenExchange: some hops the client may follow, then an ending
+func c09GenExchange(rng *zzverif.Rng, endings []c09Resp1) []c09Resp1 {
+	var s []c09Resp1
+	for rng.Chance(1, 4) && len(s) < 3 {
+		s = append(s, c09Resp1{zzverif.Pick(rng, []int{301, 302, 303, 307, 308, 307, 308}), true})
+	}
+	if rng.Chance(1, 5) {
+		return append(s, c09GenResp(rng))
+	}
+	return append(s, zzverif.Pick(rng, endings))
+}
+
+func c09ShowResps(rs []c09Resp1) string {
+	s := strconv.Itoa(len(rs))
+	for _, r := range rs {
+		l := 0
+		if r.loc {
+			l = 1
+		}
+		s += fmt.Sprintf(" %d %d", r.status, l)
+	}
+	return s
+}
+
+// c09PushCase: idx < 3*len(c09Statuses)*2 enumerates (exchange, status, Location?) as the FIRST
+// answer of that exchange of a one-layer push; the rest is random.
+func c09PushCase(t *testing.T, out *zzverif.Out, rng *zzverif.Rng, dir, tag string, idx int) {
 	c, err := blob.Open(dir)
 	if err != nil {
 		t.Fatal(err)
 	}
 	n := rng.Range(1, 5)
-	reg := &c09PushReg{outcomes: map[blob.Digest]string{}, index: map[blob.Digest]int{}, manOK: !rng.Chance(1, 8)}
+	exhaustive := idx < 3*len(c09Statuses)*2
+	if exhaustive {
+		n = 1
+	}
+	reg := &c09PushReg{index: map[blob.Digest]int{}}
 	var layers []*Layer
-	var outs []string
+	upload := c09Resp1{202, true}
+	has := c09Resp1{200, false}
 	faulty := rng.Chance(1, 2)
 	for i := 0; i < n; i++ {
 		data := append([]byte(fmt.Sprintf("layer-%d-", i)), rng.Bytes(rng.Range(1, 40))...)
@@ -1453,16 +1544,35 @@ func c09PushCase(t *testing.T, out *zzverif.Out, rng *zzverif.Rng, dir, tag stri
 		if err := blob.PutBytes(c, d, data); err != nil {
 			t.Fatal(err)
 		}
-		o := zzverif.Pick(rng, []string{"cached", "putOk", "putOk"})
-		if faulty && rng.Chance(1, 3) {
-			o = zzverif.Pick(rng, []string{"postErr", "putErr"})
+		post := []c09Resp1{zzverif.Pick(rng, []c09Resp1{upload, upload, has, {201, true}})}
+		var put []c09Resp1
+		if faulty && rng.Chance(1, 2) {
+			post = c09GenExchange(rng, []c09Resp1{upload, has, {500, false}, {307, false}})
+			put = c09GenExchange(rng, []c09Resp1{{201, false}, {200, false}, {500, false}, {307, true}, {308, true}, {304, false}})
 		}
-		reg.outcomes[d] = o
+		reg.post = append(reg.post, post)
+		reg.put = append(reg.put, put)
 		reg.index[d] = i
-		outs = append(outs, o)
-		out.Count("push_layer_" + o)
 		layers = append(layers, &Layer{Digest: d, Size: int64(len(data))})
 	}
+	if rng.Chance(1, 4) {
+		reg.man = c09GenExchange(rng, []c09Resp1{{200, false}, {201, false}, {500, false}, {304, false}, {307, false}})
+	}
+	if exhaustive {
+		ph, rest := idx/(len(c09Statuses)*2), idx%(len(c09Statuses)*2)
+		first := c09Resp1{c09Statuses[rest/2], rest%2 == 1}
+		reg.post[0], reg.put[0], reg.man = []c09Resp1{upload}, nil, nil
+		switch ph {
+		case 0:
+			reg.post[0] = []c09Resp1{first, upload}
+		case 1:
+			reg.put[0] = []c09Resp1{first}
+		case 2:
+			reg.man = []c09Resp1{first}
+		}
+		out.Count("push_exhaustive_first_answer")
+	}
+	reg.pi, reg.ui = make([]int, n), make([]int, n)
 	mdata, _ := json.Marshal(&Manifest{Layers: layers})
 	md := c09Dig(mdata)
 	if err := blob.PutBytes(c, md, mdata); err != nil {
@@ -1482,66 +1592,75 @@ func c09PushCase(t *testing.T, out *zzverif.Out, rng *zzverif.Rng, dir, tag stri
 	for _, u := range reg.unknown {
 		out.L2("driver-unexpected-request", tag, u)
 	}
-	sched := make([]string, len(reg.sched))
-	for i, s := range reg.sched {
-		sched[i] = strconv.Itoa(s)
+	var sb strings.Builder
+	fmt.Fprintf(&sb, "push %d", n)
+	for i := 0; i < n; i++ {
+		fmt.Fprintf(&sb, " %s %s", c09ShowResps(reg.post[i]), c09ShowResps(reg.put[i]))
 	}
-	mok := 0
-	if reg.manOK {
-		mok = 1
+	fmt.Fprintf(&sb, " %d", len(reg.sched))
+	for _, k := range reg.sched {
+		fmt.Fprintf(&sb, " %d", k)
 	}
-	op := fmt.Sprintf("push %d %s %d %s %d", n, strings.Join(outs, " "), len(sched), strings.Join(sched, " "), mok)
-	out.Case(op, fmt.Sprintf("%s res=%s", strings.Join(reg.log, " "), res))
-	c09Tag(tag)
-
-	// L2 on the request log, independent of the model
-	accept := make([]string, n)
-	for i, o := range outs {
-		switch o {
-		case "cached":
-			accept[i] = fmt.Sprintf("P%d+", i)
-		case "putOk":
-			accept[i] = fmt.Sprintf("U%d+", i)
+	fmt.Fprintf(&sb, " %s", c09ShowResps(reg.man))
+	op := sb.String()
+	var evs []string
+	for _, e := range reg.events {
+		evs = append(evs, e.String())
+		out.Count(fmt.Sprintf("push_answer_%dxx", e.status/100))
+		if e.status/100 == 3 && e.loc {
+			out.Count("push_answer_3xx_with_location")
 		}
 	}
-	c09PushL2(out, tag+" :: "+op, "push-new", reg.log, accept, err == nil)
+	out.Case(op, fmt.Sprintf("%s res=%s", strings.Join(evs, " "), res))
+	c09Tag(tag)
+	c09PushL2(out, tag+" :: "+op, reg.events, n, err == nil)
 }
 
-// c09PushL2 checks on a request log: the manifest PUT is sent at most once, is the last request,
-// comes after the accepting answer for every layer (accept[i]; "" = the registry refuses layer i),
-// and is absent if any layer was refused; success is reported only if the manifest PUT was sent.
-func c09PushL2(out *zzverif.Out, caseLine, impl string, log []string, accept []string, success bool) {
-	mi := -1
-	for i, e := range log {
-		if e == "M" {
-			if mi >= 0 {
-				out.L2("push-manifest-twice", caseLine, impl)
-			}
-			mi = i
+// c09PushL2, on the registry's request log alone: requests of the manifest exchange come after every
+// layer request; when one is sent, every layer was settled with a 2xx on its final request — the
+// last request of its POST exchange if that answer carried no upload URL (the registry has the
+// blob), else the last request of its upload exchange, which must exist; Push returns nil only if
+// the manifest exchange was sent and its last request answered 2xx.
+func c09PushL2(out *zzverif.Out, caseLine string, evs []c09PushEvent, n int, success bool) {
+	var ss []string
+	for _, e := range evs {
+		ss = append(ss, e.String())
+	}
+	ls := "push-new log=" + strings.Join(ss, " ")
+	first := -1
+	for i, e := range evs {
+		if e.layer < 0 && first < 0 {
+			first = i
+		}
+		if e.layer >= 0 && first >= 0 {
+			out.L2("push-manifest-not-last", caseLine, ls)
+			break
 		}
 	}
-	ls := " log=" + strings.Join(log, " ")
-	if mi >= 0 && mi != len(log)-1 {
-		out.L2("push-manifest-not-last", caseLine, impl+ls)
-	}
-	if mi >= 0 {
-		for i, a := range accept {
-			if a == "" {
-				out.L2("push-manifest-after-upload-error", caseLine, fmt.Sprintf("%s layer=%d%s", impl, i, ls))
-				continue
-			}
-			found := false
-			for _, e := range log[:mi] {
-				if e == a {
-					found = true
+	if first >= 0 {
+		for l := 0; l < n; l++ {
+			var lastP, lastU *c09PushEvent
+			for i := range evs[:first] {
+				e := &evs[i]
+				if e.layer == l && !e.upload {
+					lastP = e
+				}
+				if e.layer == l && e.upload {
+					lastU = e
 				}
 			}
-			if !found {
-				out.L2("push-manifest-before-layer", caseLine, fmt.Sprintf("%s layer=%d%s", impl, i, ls))
+			switch {
+			case lastP == nil || lastP.status/100 != 2:
+				out.L2("push-manifest-after-upload-error", caseLine, fmt.Sprintf("layer=%d upload session not opened with 2xx; %s", l, ls))
+			case lastP.loc && lastU == nil:
+				out.L2("push-manifest-before-layer", caseLine, fmt.Sprintf("layer=%d never uploaded although the registry asked for it; %s", l, ls))
+			case lastP.loc && lastU.status/100 != 2:
+				out.L2("push-manifest-after-upload-error", caseLine, fmt.Sprintf("layer=%d final upload request answered %d; %s", l, lastU.status, ls))
 			}
 		}
 	}
-	if success && mi < 0 {
-		out.L2("push-success-without-manifest", caseLine, impl+ls)
+	last := evs[len(evs)-1]
+	if success && (first < 0 || last.layer >= 0 || last.status/100 != 2) {
+		out.L2("push-success-without-manifest", caseLine, ls)
 	}
 }
